@@ -34,8 +34,11 @@ def setup(backend="stabilizer"):
         Q.reactor = env.clock
         for m in env.clock_modules:          # further modules with a module-global `reactor` (NetQASM backend, see qasm_sync)
             m.reactor = env.clock
+        for h in env.clock_hooks:            # instrumentation that wraps the clock (seeded timer jitter of harness/conc.py)
+            h(env.clock)
         return env.clock
     env.clock_modules = []
+    env.clock_hooks = []
     env.new_clock = new_clock
     new_clock()
     env.coins = []
